@@ -574,6 +574,63 @@ pub fn enter_long_cwd(ctx: &Ctx, len: usize) -> std::io::Result<()> {
     Ok(())
 }
 
+/// Put the scenario's tree where the run will happen: `<scratch>/A`, or the long working
+/// directory when the scenario asks for one (the process is then inside it and the returned
+/// root is `.`). `leave_long_cwd` afterwards in the second case.
+pub fn place_tree(sc: &FindScenario, ctx: &Ctx) -> Result<PathBuf, String> {
+    let _ = std::env::set_current_dir(&ctx.scratch);
+    let root = match sc.long_cwd {
+        Some(len) => {
+            if let Err(e) = enter_long_cwd(ctx, len) {
+                leave_long_cwd(ctx);
+                return Err(format!("cannot enter a working directory of {len} bytes: {e}"));
+            }
+            PathBuf::from(".")
+        }
+        None => {
+            let root = ctx.scratch.join("A");
+            crate::sys::wipe(&root);
+            fs::create_dir_all(&root).map_err(|e| e.to_string())?;
+            root
+        }
+    };
+    if let Err(e) = tree::build(&root, &sc.tree) {
+        if sc.long_cwd.is_some() {
+            leave_long_cwd(ctx);
+        }
+        return Err(format!("cannot build tree: {e}"));
+    }
+    Ok(root)
+}
+
+/// What a run with real children owes beyond the property's own oracle: the children's log
+/// agrees with the seam's record, and every invocation could be started (the children are
+/// there and executable: a refusal is find's own doing). Returns (class suffix, detail).
+pub fn judge_real_children(sc: &FindScenario, obs: &FindObs) -> Option<(&'static str, String)> {
+    if !sc.real_children {
+        return None;
+    }
+    let argv = &sc.argv[..sc.argv.len().min(12)];
+    if let Some(m) = &obs.real_mismatch {
+        return Some(("real-children-differ", format!("argv {argv:?}: {m}")));
+    }
+    for ev in &obs.log.events {
+        if let Event::Spawn { outcome: Outcome::SpawnErr(e), cwd, argv: child, .. } = ev {
+            return Some((
+                "invocation-could-not-be-started",
+                format!(
+                    "argv {argv:?} (working directory of {:?} bytes): an invocation with {} arguments and working directory {:?} could not be started: {}",
+                    sc.long_cwd,
+                    child.len(),
+                    cwd.as_ref().map(|c| crate::sys::show(&c.0[..c.0.len().min(80)])),
+                    std::io::Error::from_raw_os_error(*e)
+                ),
+            ));
+        }
+    }
+    None
+}
+
 /// Back out of the long working directory and remove it.
 pub fn leave_long_cwd(ctx: &Ctx) {
     let _ = std::env::set_current_dir(&ctx.scratch);
